@@ -40,6 +40,8 @@ type vf30Case struct {
 	Kind  string         `json:"kind"` // universe | scen
 	ID    int            `json:"id"`
 	Zone  string         `json:"zone"`
+	FK    string         `json:"fk"`    // record path layout
+	Stamp string         `json:"stamp"` // universe: what follows %path/ in the recordPath
 	Files []vf30File     `json:"files"` // universe
 	Now   []vf30Now      `json:"now"`   // universe: the two clock readings
 	DA    map[string]int `json:"da"`    // scen: recordDeleteAfter seconds per configuration, -1 = absent
@@ -53,7 +55,7 @@ type vf30Obs struct {
 	Extra []string `json:"extra"` // files found that the scenario did not create
 }
 
-func vf30Confs(base string, da map[string]int, ts bool) map[string]*conf.Path {
+func vf30Confs(base string, stamp string, da map[string]int, ts bool) map[string]*conf.Path {
 	out := map[string]*conf.Path{}
 	for name, secs := range da {
 		if secs < 0 {
@@ -61,7 +63,7 @@ func vf30Confs(base string, da map[string]int, ts bool) map[string]*conf.Path {
 		}
 		pc := &conf.Path{
 			Name:              name,
-			RecordPath:        filepath.Join(base, "%path/%Y-%m-%d_%H-%M-%S-%f"),
+			RecordPath:        base + "/%path/" + stamp,
 			RecordFormat:      conf.RecordFormatFMP4,
 			RecordDeleteAfter: conf.Duration(time.Duration(secs) * time.Second),
 		}
@@ -96,7 +98,7 @@ func TestVerif_C30_Replay(t *testing.T) {
 		verifrt.Decode(t, raw, &c)
 		if c.Kind == "universe" {
 			cc := c
-			universe[c.Zone] = &cc
+			universe[c.Zone+"|"+c.FK] = &cc
 			loc, err := time.LoadLocation(c.Zone)
 			if err != nil {
 				t.Fatalf("cannot load zone %s: %v", c.Zone, err)
@@ -104,9 +106,9 @@ func TestVerif_C30_Replay(t *testing.T) {
 			locs[c.Zone] = loc
 			return
 		}
-		u := universe[c.Zone]
+		u := universe[c.Zone+"|"+c.FK]
 		if u == nil {
-			t.Fatalf("scenario %d before the universe of zone %s", c.ID, c.Zone)
+			t.Fatalf("scenario %d before the universe of zone %s layout %s", c.ID, c.Zone, c.FK)
 		}
 		time.Local = locs[c.Zone]
 
@@ -133,7 +135,7 @@ func TestVerif_C30_Replay(t *testing.T) {
 		for k, v := range c.DA {
 			da[k] = v
 		}
-		cl := &Cleaner{PathConfs: vf30Confs(base, da, c.TS), Parent: vf30Log{}}
+		cl := &Cleaner{PathConfs: vf30Confs(base, u.Stamp, da, c.TS), Parent: vf30Log{}}
 		nowIdx := 0
 		o := vf30Obs{ID: c.ID, After: [][]int{}, Extra: []string{}}
 		for _, st := range c.Steps {
@@ -163,7 +165,7 @@ func TestVerif_C30_Replay(t *testing.T) {
 				o.After = append(o.After, ids)
 			case "reload":
 				da[st[1].(string)] = int(st[2].(float64))
-				cl.PathConfs = vf30Confs(base, da, c.TS) // what Cleaner.run does on chReloadConf
+				cl.PathConfs = vf30Confs(base, u.Stamp, da, c.TS) // what Cleaner.run does on chReloadConf
 			case "advance":
 				nowIdx = 1
 			}
